@@ -534,6 +534,7 @@ impl Run {
                 let prompt_ok = !self.cfg.tx_prompt || {
                     let sl = self.alloc_slot[a] as usize;
                     self.sh.pdu_loop.verif_slot(sl).0 == 4
+                        && matches!(p, Point::Harness { name: "parked" })
                 };
                 if prompt_ok {
                     v.push((ENV_TIMER, a as u64));
@@ -637,7 +638,7 @@ impl Run {
                 }
             }
         } else if pid == self.rx_pid {
-            if let Point::Hook { site: Site::FpLoad, .. } = &point {
+            if let Point::Hook { site: Site::FpLoad | Site::StLoad, .. } = &point {
                 slot_override = Some(self.rx_scan);
             }
             if let Point::Harness { name: "rx_idle" } = &point {
@@ -667,6 +668,12 @@ impl Run {
                             self.in_retry[pid] = false;
                         } else {
                             self.armed[pid] = true;
+                            self.fired[pid] = false;
+                        }
+                    }
+                    // deadline branch after the fix: recheck, then re-arm before the re-queue
+                    Site::SwapState if *a == 6 => {
+                        if let Some(Point::Hook { site: Site::SwapState, a: 4, b: 2, .. }) = &next {
                             self.fired[pid] = false;
                         }
                     }
@@ -716,10 +723,10 @@ impl Run {
         } else if pid == self.rx_pid {
             match &point {
                 Point::Harness { .. } => self.rx_scan = 0,
-                Point::Hook { site: Site::FpLoad, .. } => {
-                    self.rx_scan += 1;
-                    if !matches!(&next, Some(Point::Hook { site: Site::FpLoad, .. })) {
-                        // matched or exhausted
+                Point::Hook { site: Site::FpLoad | Site::StLoad, .. } => {
+                    // the scan position moves on when the next point is the next slot's load
+                    if matches!(&next, Some(Point::Hook { site: Site::FpLoad, .. })) {
+                        self.rx_scan += 1;
                     }
                 }
                 _ => {}
